@@ -116,7 +116,8 @@ class Ctx:
                              'std / third-party crates as analysis boundaries',
                              'reviewed instance tables under /verif/tables']
 
-    def fb(self, cfg='ws'):
+    def fb(self, cfg=None):
+        cfg = cfg or getattr(self, 'default_cfg', 'ws')
         if cfg not in self._fbs:
             self._fbs[cfg] = facts.FactBase(self.fact_dirs[cfg], cfg)
         return self._fbs[cfg]
@@ -192,6 +193,29 @@ def main(argv):
     mod.run(ctx)
     if tier == 'thorough' and hasattr(mod, 'run_thorough'):
         mod.run_thorough(ctx)
+    if tier == 'thorough':
+        # re-evaluate the same rules on every reduced-feature configuration of the rten crate: the cfg'd-out variants of
+        # loaders / registries / operators are different code.  Scope-size floors and anchors that legitimately shrink or
+        # disappear with the features are not violations there; every substantive instance is.
+        for cfg in getattr(mod, 'THOROUGH_CFGS', ()):
+            sub = Ctx(prop, tier, fact_dirs, load_tables(prop), h)
+            sub.default_cfg = cfg
+            sub._fbs = ctx._fbs
+            try:
+                mod.run(sub)
+            except Exception as e:   # a rule that cannot run on a reduced configuration is reported, not hidden
+                ctx.note('cfg %s: rules aborted with %s: %s' % (cfg, type(e).__name__, str(e)[:200]))
+                continue
+            skipped = 0
+            for i in sub.instances:
+                k = i['key'].split('|', 1)[1] if '|' in i['key'] else i['key']
+                structural = k.startswith(('floor:', 'anchor:', 'reach:', 'census', 'stale-table:', 'cfg:'))
+                if not i['ok'] and (structural or i['rule'] in getattr(mod, 'CFG_DEPENDENT_RULES', ()) or i['key'] in getattr(mod, 'CFG_DEPENDENT_KEYS', ())):
+                    skipped += 1
+                    continue
+                ctx.inst('%s@%s' % (i['rule'], cfg), k, i['ok'], i['detail'], i['loc'], nontrivial=i['nontrivial'])
+            ctx.count('cfg_%s_instances' % cfg, len(sub.instances))
+            ctx.count('cfg_%s_scope_instances_skipped' % cfg, skipped)
 
     known = load_known()
     known_keys = {(k['property'], k['key']): k for k in known.get('findings', [])}
